@@ -15,6 +15,12 @@ def wOk : Content :=
     rxns := [("r1", { rate := fMul "d2" "y", stoich := [("x", .num (-1)), ("y", .num 1)] }),
              ("r2", { rate := fMul "d3" "k", stoich := [("y", .num (-3))] })] }
 
+/-- inside the hypotheses, with a variable defined by an initial assignment that reads a derived value -/
+def wOkIA : Content :=
+  { vars := [("x", .plain 1), ("y", .ia (fAdd "d1" "k"))], pars := [("k", .plain 2)]
+    derived := [("d1", fMul "x" "k"), ("d2", fAdd "y" "d1")]
+    rxns := [("r1", { rate := fMul "d2" "y", stoich := [("x", .num (-1)), ("y", .num 1)] })] }
+
 /-- F-C07-3: `z` occurs in no reaction -/
 def wNoEq : Content :=
   { vars := [("x", .plain 1), ("z", .plain 1)], pars := [("k", .plain 2)]
